@@ -14,6 +14,7 @@ pub struct ConcRng {
     pub seed: u64,
     pub model: HashMap<String, Vec<u64>>,
     pub log: Vec<usize>,
+    pub bytes: Vec<Vec<u8>>,
 }
 impl TryRng for ConcRng {
     type Error = Infallible;
@@ -48,6 +49,7 @@ impl TryRng for ConcRng {
                 ch.copy_from_slice(&w[..ch.len()]);
             }
         }
+        self.bytes.push(dst.to_vec());
         Ok(())
     }
 }
@@ -85,7 +87,7 @@ impl<C: Ciphersuite> ConcLab<C> {
                 m.insert(k.clone(), hex_to_limbs(v));
             }
         }
-        ConcLab { rng: ConcRng { k: 0, seed, model: m, log: vec![] }, failures: vec![], checks: 0, labels: vec![], _c: PhantomData }
+        ConcLab { rng: ConcRng { k: 0, seed, model: m, log: vec![], bytes: vec![] }, failures: vec![], checks: 0, labels: vec![], _c: PhantomData }
     }
     fn named(&mut self, name: &str) -> Scalar<C> {
         if let Some(l) = self.rng.model.get(name) {
@@ -190,5 +192,11 @@ impl<C: Ciphersuite> Lab<C> for ConcLab<C> {
     }
     fn draw_scalar(&mut self, _k: usize) -> Option<Scalar<C>> {
         None
+    }
+    fn draw_bytes(&mut self, k: usize) -> Option<Vec<u8>> {
+        self.rng.bytes.get(k).cloned()
+    }
+    fn eq_bytes(&mut self, a: &[u8], b: &[u8], what: &str) -> bool {
+        self.rec(a == b, what)
     }
 }
